@@ -83,6 +83,29 @@ func propC13Writers(t *rapid.T) {
 		n, err = sl.Writer().Write(p)
 		chk("NewStdLogAt(l, Warn).Writer()", n, err)
 	}
+	// the bridge on loggers that will not log the message (level disabled, no-op core, level raised later): the
+	// writer still consumes all of p
+	quiet := zap.NewAtomicLevelAt(zapcore.ErrorLevel)
+	qcore, qlogs := observer.New(quiet)
+	qlg := zap.New(qcore)
+	n, err = zap.NewStdLog(qlg).Writer().Write(p)
+	chk("NewStdLog(logger with Info disabled).Writer()", n, err)
+	if sl, e := zap.NewStdLogAt(qlg, zapcore.DebugLevel); e == nil {
+		n, err = sl.Writer().Write(p)
+		chk("NewStdLogAt(l, Debug) on a logger with Debug disabled", n, err)
+	}
+	n, err = zap.NewStdLog(zap.NewNop()).Writer().Write(p)
+	chk("NewStdLog(NewNop()).Writer()", n, err)
+	if sl, e := zap.NewStdLogAt(qlg, zapcore.ErrorLevel); e == nil {
+		w := sl.Writer()
+		quiet.SetLevel(zapcore.FatalLevel) // raised after the bridge was built
+		n, err = w.Write(p)
+		chk("NewStdLogAt(l, Error) after the level was raised", n, err)
+		quiet.SetLevel(zapcore.ErrorLevel)
+	}
+	if qlogs.Len() != 0 {
+		t.Fatalf("a disabled std-log bridge logged %d entries", qlogs.Len())
+	}
 	func() {
 		c13StdMu.Lock()
 		defer c13StdMu.Unlock()
